@@ -96,7 +96,14 @@ func judge(p *spec.Policy) (v verdict, inconclusive string) {
 			allEmpty = false
 		}
 		if oracle.ActionName(g.Action) == "" {
-			v.noClaim = append(v.noClaim, "group action outside the documented ones")
+			// A kernel-defined action that carries data (ERRNO|n, TRACE|n, TRAP|n) or user_notif is not among the listed
+			// defects: such a policy has to be accepted like any other. Values that are no seccomp return value at all
+			// remain without a claim.
+			switch base := g.Action & 0xffff0000; {
+			case base == oracle.Const("SECCOMP_RET_ERRNO"), base == oracle.Const("SECCOMP_RET_TRACE"), base == oracle.Const("SECCOMP_RET_TRAP"), g.Action == 0x7fc00000:
+			default:
+				v.noClaim = append(v.noClaim, "group action that is no seccomp return value")
+			}
 		}
 		seen := map[string]bool{}
 		for i, n := range g.Names {
